@@ -388,32 +388,59 @@ def skeleton_rule(rep, f, name, value_arg, base, rule='R-SKELETON'):
     ok = bool(srcs) and all(s[1] == value_arg for s in srcs)
     inst('dividend-starts-from-the-value-or-its-negation', ok, 'dividend is initialised from %s' % srcs,
          fact={'sources': srcs})
-    # one byte per digit at a cursor that moves by one
+    # one byte per digit at a cursor that moves by one.  The cursor may be a pointer (`*p++ = d`) or an index
+    # (`buf[len++] = d`); the digit may be stored by one statement or by one store in each arm of an if/else.
     stores = [i for b in L['blocks'] for i in b.insts if i.op == 'store' and rems and depends_on(f, i.ops[0], rems[0])]
     ok = False
     det = 'found %d stores of a remainder-derived byte in the loop' % len(stores)
-    if len(stores) == 1 and stores[0].d.get('store_size') == 1:
-        s = stores[0]
+
+    def cursor_of(s):
+        """(loop-carried phi, step per iteration) addressing the store, or (None, reason)"""
         p = s.ops[1]
         cur = None
-        step = None
         if p.k == 'inst' and f.insts[p.id].op == 'phi':
             cur = f.insts[p.id]
         elif p.k == 'inst' and f.insts[p.id].op == 'getelementptr':
             g = f.insts[p.id]
-            if g.ops[0].k == 'inst' and f.insts[g.ops[0].id].op == 'phi':
+            if g.ops[0].k == 'inst' and f.insts[g.ops[0].id].op == 'phi' and f.insts[g.ops[0].id].block is L['header']:
                 cur = f.insts[g.ops[0].id]
-        if cur is not None and cur.block is L['header']:
-            for (bb, v) in cur.incoming:
-                if f.bmap[bb] in L['blocks'] and v.k == 'inst' and f.insts[v.id].op == 'getelementptr':
-                    g = f.insts[v.id]
-                    st_ = g.d['gep']['steps']
-                    if g.ops[0].k == 'inst' and g.ops[0].id == cur.id and len(st_) == 1 and st_[0]['v']['k'] == 'ci':
-                        step = st_[0]['stride'] * st_[0]['v']['v']
+            else:
+                # index form: base[idx] with idx a loop-carried integer
+                for o in g.ops[1:]:
+                    x = strip(f, o)
+                    if x.k == 'inst' and f.insts[x.id].op == 'phi' and f.insts[x.id].block is L['header']:
+                        cur = f.insts[x.id]
+        if cur is None or cur.block is not L['header']:
+            return None, 'digit is not stored through a loop-carried cursor'
+        step = None
+        for (bb, v) in cur.incoming:
+            if f.bmap[bb] not in L['blocks'] or v.k != 'inst':
+                continue
+            g = f.insts[v.id]
+            if g.op == 'getelementptr':
+                st_ = g.d['gep']['steps']
+                if g.ops[0].k == 'inst' and g.ops[0].id == cur.id and len(st_) == 1 and st_[0]['v']['k'] == 'ci':
+                    step = st_[0]['stride'] * st_[0]['v']['v']
+            elif g.op == 'add' and any(o.k == 'ci' for o in g.ops):
+                o2 = [o for o in g.ops if o.k != 'ci']
+                if o2 and o2[0].k == 'inst' and o2[0].id == cur.id:
+                    step = [o for o in g.ops if o.k == 'ci'][0].ival
+        return cur, step
+    if stores and all(s.d.get('store_size') == 1 for s in stores):
+        cs = [cursor_of(s) for s in stores]
+        curs = set(c[0].id for c in cs if c[0] is not None)
+        # several stores are alternatives (arms of a branch): none of them can reach another within one iteration
+        exclusive = all(s2.block not in f.reachable_blocks(s1.block, avoid=[L['header']]) or s1 is s2
+                        for s1 in stores for s2 in stores if s1.block is not s2.block) and \
+            len(set(s.block.name for s in stores)) == len(stores)
+        if any(c[0] is None for c in cs):
+            det = [c[1] for c in cs if c[0] is None][0]
+        elif len(curs) != 1 or not exclusive:
+            det = 'found %d stores of a remainder-derived byte in the loop that are not alternatives at one cursor' % len(stores)
+        else:
+            step = cs[0][1]
             ok = step in (1, -1)
             det = 'cursor step per digit is %s' % step
-        else:
-            det = 'digit is not stored through a loop-carried cursor'
     inst('one-byte-per-digit-at-a-cursor-moving-by-one', ok, det)
     return D
 
